@@ -14,7 +14,7 @@ def prob(draw, p):
 
 @st.composite
 def g1_nodes(draw, min_nodes=2, max_nodes=7, prefix="n", out_prefix="o", in_prefix="x", p_edge=0.7, allow_no_out=True, default_on_edge=0.2,
-             nested_names=False):
+             nested_names=False, p_const=0.0):
     """Acyclic gate-free program: list of func-node specs in a topological order (unique producers).
     nested_names: node names are prefixes of one another (step, step_a, step_a_a, ...) - legal, and a trap for string matching."""
     n = draw(st.integers(min_nodes, max_nodes))
@@ -46,13 +46,16 @@ def g1_nodes(draw, min_nodes=2, max_nodes=7, prefix="n", out_prefix="o", in_pref
         nout = draw(st.sampled_from([0, 1, 1, 1, 2, 3] if allow_no_out else [1, 1, 1, 2, 3]))
         outs = [f"{out_prefix}{i}_{j}" for j in range(nout)]
         params = [p for p in params if p not in defaults_by_name] + [p for p in params if p in defaults_by_name]
-        nodes.append({
+        spec = {
             "k": "func",
             "name": name,
             "params": params,
             "defaults": {p: defaults_by_name[p] for p in params if p in defaults_by_name},
             "outs": outs,
-        })
+        }
+        if p_const and nout == 1 and prob(draw, p_const):
+            spec["ret"] = draw(st.sampled_from([None, None, 0, False, "", []]))  # legal output values that are falsy / None
+        nodes.append(spec)
         for o in outs:
             produced.add(o)
             avail.append(o)
@@ -71,9 +74,9 @@ def subset(draw, items, p=0.3):
 
 
 @st.composite
-def g1_case(draw, min_nodes=2, max_nodes=7, with_select=True):
+def g1_case(draw, min_nodes=2, max_nodes=7, with_select=True, p_const=0.0):
     """Program + configuration (bindings, run-time values, optional selection)."""
-    topo = draw(g1_nodes(min_nodes, max_nodes))
+    topo = draw(g1_nodes(min_nodes, max_nodes, p_const=p_const))
     nodes = draw(permuted(topo))
     prod = ref.producers(nodes)
     outs = [o for n in topo for o in n["outs"]]
@@ -266,6 +269,10 @@ def rename_history(draw, mapping, kind, prefix):
         a, b = draw(st.permutations(finals))[:2]
         swap = {"kind": kind, "map": {a: b, b: a}}
         steps += [swap, dict(swap)]
+    if draw(st.booleans()):
+        # the node is inspected (lazy caches filled) before / between derivations
+        at = draw(st.integers(0, len(steps) - 1))
+        steps.insert(at, {"kind": "warm"})
     return steps
 
 
